@@ -132,7 +132,13 @@ func cmdRun(args []string) {
 	for i := 0; i < n; i++ {
 		s := *seed*1_000_003 + int64(i)
 		st := *steps
-		jobs = append(jobs, job{fmt.Sprintf("random-%d", s), func(a *App, mon *Mon) { RandomHistory(a, mon, s, st) }})
+		idx := i
+		jobs = append(jobs, job{fmt.Sprintf("random-%d", s), func(a *App, mon *Mon) {
+			r := RandomHistory(a, mon, s, st)
+			if *prop == "C20" || (*prop == "all" && idx%10 == 0) {
+				checkDeterminism(mon, r, 2, idx%25 == 0)
+			}
+		}})
 	}
 	jobs = append(jobs, directedJobs(*prop, *tier, *seed)...)
 	want := func(p string) bool { return *prop == "all" || *prop == p }
@@ -335,7 +341,7 @@ var mandatory = map[string][]string{
 	"C17": {"definition", "binding", "bindings-of-service", "bindings-of-service-and-owner", "pending-requests-of-binding", "earned-fees", "withdraw-address", "request-context", "requests-of-batch", "responses-of-batch", "request", "response", "params", "schema"},
 	"C18": {"context-id", "request-id", "keys-distinct", "scan-exact", "issue-event-position"},
 	"C19": {"prep-returns-escrow", "export-validates", "json-roundtrip", "import-export-identity"},
-	"C20": {"no-panic"},
+	"C20": {"no-panic", "replay-identical", "replay-identical-across-processes"},
 }
 
 func cmdReplay(args []string) {
